@@ -211,27 +211,83 @@ fn eval_fresh(req: &Request, keyb: &[u8]) -> RefResult {
     r
 }
 
+// ---------- forker ----------
+
+/// `sim forker`: reads requests on stdin, evaluates each in pristine forked children,
+/// writes the answer on stdout. Keeps no memo, so its address space stays tiny and
+/// fork() stays cheap however long the check runs.
+pub fn forker_main() -> ! {
+    crate::quiet_panics();
+    crate::hook::install();
+    hashkeys::install();
+    // main-thread stack may grow to 64 MiB (simulated threads get 16 MiB)
+    unsafe {
+        let mut cur = libc::rlimit { rlim_cur: 0, rlim_max: 0 };
+        if libc::getrlimit(libc::RLIMIT_STACK, &mut cur) == 0 {
+            let want = libc::rlimit {
+                rlim_cur: (64u64 << 20).min(cur.rlim_max),
+                rlim_max: cur.rlim_max,
+            };
+            libc::setrlimit(libc::RLIMIT_STACK, &want);
+        }
+    }
+    let stdin = std::io::stdin();
+    let stdout = std::io::stdout();
+    let mut inp = stdin.lock();
+    let mut out = stdout.lock();
+    loop {
+        let fields = match read_msg(&mut inp) {
+            Ok(Some(f)) => f,
+            _ => std::process::exit(0),
+        };
+        let mut keyb = Vec::new();
+        for f in &fields {
+            put_field(&mut keyb, f);
+        }
+        let ans = match fields_req(&fields) {
+            Some(req) => {
+                let t0 = std::time::Instant::now();
+                let r = eval_fresh(&req, &keyb);
+                if std::env::var_os("SIM_REF_TRACE").is_some() {
+                    eprintln!(
+                        "REF {:?}us steps={} {}",
+                        t0.elapsed().as_micros(),
+                        r.steps + r.poll_steps.iter().sum::<u64>(),
+                        req.show()
+                    );
+                }
+                res_to_bytes(&r)
+            }
+            None => res_to_bytes(&RefResult {
+                open: "Aborted(bad request)".into(),
+                steps: 0,
+                polls: vec![],
+                poll_steps: vec![],
+                unstable: false,
+            }),
+        };
+        if write_msg(&mut out, &[&ans]).is_err() {
+            std::process::exit(0);
+        }
+    }
+}
+
 // ---------- server ----------
 
 pub fn serve(sock_path: &str) -> ! {
     crate::quiet_panics();
     crate::hook::install();
     hashkeys::install();
-    // main-thread stack may grow to 64 MiB (simulated threads get 16 MiB)
-    unsafe {
-        let lim = libc::rlimit {
-            rlim_cur: 64 << 20,
-            rlim_max: libc::RLIM_INFINITY,
-        };
-        let mut cur = libc::rlimit { rlim_cur: 0, rlim_max: 0 };
-        if libc::getrlimit(libc::RLIMIT_STACK, &mut cur) == 0 {
-            let want = libc::rlimit {
-                rlim_cur: lim.rlim_cur.min(cur.rlim_max),
-                rlim_max: cur.rlim_max,
-            };
-            libc::setrlimit(libc::RLIMIT_STACK, &want);
-        }
-    }
+    // the memo lives here; the forking happens in a separate small process
+    let exe = std::env::current_exe().expect("current_exe");
+    let mut forker = std::process::Command::new(exe)
+        .arg("forker")
+        .stdin(std::process::Stdio::piped())
+        .stdout(std::process::Stdio::piped())
+        .spawn()
+        .expect("spawn forker");
+    let mut fk_in = forker.stdin.take().unwrap();
+    let mut fk_out = forker.stdout.take().unwrap();
     let _ = std::fs::remove_file(sock_path);
     let listener = UnixListener::bind(sock_path).expect("bind reference socket");
     let mut memo: HashMap<Vec<u8>, Vec<u8>> = HashMap::new();
@@ -283,27 +339,15 @@ pub fn serve(sock_path: &str) -> ! {
             let (ans, miss) = if let Some(a) = memo.get(&keyb) {
                 (a.clone(), false)
             } else {
-                let a = match fields_req(&fields) {
-                    Some(req) => {
-                        let t0 = std::time::Instant::now();
-                        let r = eval_fresh(&req, &keyb);
-                        if std::env::var_os("SIM_REF_TRACE").is_some() {
-                            eprintln!(
-                                "REF {:?}us steps={} {}",
-                                t0.elapsed().as_micros(),
-                                r.steps + r.poll_steps.iter().sum::<u64>(),
-                                req.show()
-                            );
-                        }
-                        res_to_bytes(&r)
+                let refs: Vec<&[u8]> = fields.iter().map(|f| f.as_slice()).collect();
+                let a = match write_msg(&mut fk_in, &refs)
+                    .and_then(|_| read_msg(&mut fk_out))
+                {
+                    Ok(Some(mut ans)) if !ans.is_empty() => ans.swap_remove(0),
+                    _ => {
+                        eprintln!("reference lane: forker process failed");
+                        std::process::exit(2);
                     }
-                    None => res_to_bytes(&RefResult {
-                        open: "Aborted(bad request)".into(),
-                        steps: 0,
-                        polls: vec![],
-                        poll_steps: vec![],
-                        unstable: false,
-                    }),
                 };
                 memo.insert(keyb, a.clone());
                 (a, true)
